@@ -53,7 +53,7 @@ fn check_sink(ctx: &mut Ctx, h: &Hist, env: &Env, sink: &[u8], accepted: &[usize
 
 pub fn run(tape: &[u8], ctx: &mut Ctx) {
 	let mut t = Tape::new(tape);
-	let hc = HistCfg { allow_bad: true, allow_big: false, max_ops: 10, codecs: ALL_CODECS, user_meta: false };
+	let hc = HistCfg { allow_bad: true, allow_big: true, max_ops: 10, codecs: ALL_CODECS, user_meta: false };
 	let Some(h) = gen_hist(&mut t, ctx, "C15", &hc) else { return };
 	let env = Env::new(&h.case.schema);
 	ctx.label(format!("codec:{}", h.codec.name()));
